@@ -157,33 +157,50 @@ def _limits_roundtrip(fc, L: RuleResult):
     if len(save) != 1:
         L.undecided(fw, fw.node, "cannot find the single save_for_backward call of forward")
         return
-    relevant_names = {"xl", "xu"}
-    fstmts = []
-    for st in own_nodes(fw.node):
-        if isinstance(st, ast.Assign):
-            src = ast.unparse(st.value)
-            tgt = ast.unparse(st.targets[0])
-            loaded = {n.id for n in ast.walk(st.value) if isinstance(n, ast.Name)} | {ast.unparse(n) for n in ast.walk(st.value) if isinstance(n, ast.Attribute)}
-            if (("xltensor" in src or "xutensor" in src) and ("xl" in loaded or "xu" in loaded)) or \
-                    (loaded & relevant_names and loaded <= relevant_names | {c_f, "%s.xltensor" % c_f, "%s.xutensor" % c_f, "torch", "isinstance", "torch.Tensor"} and tgt not in ("xl", "xu")):
-                if not tgt.endswith("tensor") or "isinstance" not in src:
-                    fstmts.append(st)
-                    relevant_names |= {n.id for n in ast.walk(st.targets[0]) if isinstance(n, ast.Name)}
+    # forward: every statement is offered to the abstract interpreter, in order (`with` bodies flattened); what it cannot interpret is
+    # skipped and the names it would have bound become unknown - except the tensor conversion of a limit, which keeps its identity
+    def flat(stmts):
+        for st in stmts:
+            if isinstance(st, ast.With):
+                yield from flat(st.body)
+            elif not isinstance(st, (ast.FunctionDef, ast.ClassDef, ast.Return)):
+                yield st
+    fstmts = list(flat(fw.node.body))
     bstmts = [st for st in _unpack_statements(bw, c_b)]
     if not fstmts or not bstmts:
         L.undecided(bw, bw.node, "cannot find the pack (forward) / unpack (backward) of the tensor limits")
         return
+
+    def run_forward(xlT, xuT):
+        from ..domains.dictsem import Tok, _Return
+        fi_ = DictInterp({"xl": Tok("XL", is_tensor=xlT), "xu": Tok("XU", is_tensor=xuT)})
+        for st in fstmts:
+            try:
+                fi_.run([st])
+            except (Unsupported, Raised, _Return):
+                if isinstance(st, (ast.If, ast.For, ast.While, ast.Try)):
+                    stored = {n.id for n in ast.walk(st) if isinstance(n, ast.Name) and isinstance(n.ctx, ast.Store)}
+                else:
+                    stored = {n.id for t in getattr(st, "targets", []) for n in ast.walk(t) if isinstance(n, ast.Name)}
+                    stored |= {ast.unparse(t) for t in getattr(st, "targets", []) if isinstance(t, ast.Attribute)}
+                for nm in stored:
+                    conv = isinstance(st, ast.Assign) and isinstance(st.value, ast.Call) and ast.unparse(st.value.func) in ("torch.as_tensor", "torch.tensor") \
+                        and st.value.args and ast.unparse(st.value.args[0]) == nm and nm in ("xl", "xu")
+                    if not conv:
+                        fi_.env.pop(nm, None)
+        return fi_
     bad = None
     for xlT in (True, False):
         for xuT in (True, False):
             try:
-                fi_ = DictInterp({"xl": "XL", "xu": "XU", "%s.xltensor" % c_f: xlT, "%s.xutensor" % c_f: xuT})
-                fi_.run(sorted(fstmts, key=lambda s_: s_.lineno))
-                saved_first = []
+                fi_ = run_forward(xlT, xuT)
+                saved_first = None
                 for a in save[0].args:
-                    if isinstance(a, ast.Starred) and isinstance(a.value, ast.Name) and a.value.id in fi_.env:
+                    if isinstance(a, ast.Starred) and isinstance(a.value, ast.Name) and isinstance(fi_.env.get(a.value.id), (list, tuple)):
                         saved_first = list(fi_.env[a.value.id])
                         break
+                if saved_first is None:
+                    raise Unsupported("the list of limits handed to save_for_backward")
                 ctx_attrs = {k.replace(c_f + ".", c_b + ".", 1): v for k, v in fi_.env.items() if k.startswith(c_f + ".")}
                 env = dict(ctx_attrs)
                 env["%s.saved_tensors" % c_b] = tuple(saved_first + ["P1", "P2"])
@@ -196,8 +213,9 @@ def _limits_roundtrip(fc, L: RuleResult):
                 return
             except Raised as e:
                 got = ("raises %s" % e, None)
-            if got != ("XL", "XU") and bad is None:
-                bad = (xlT, xuT, got)
+            names_ = tuple(getattr(g_, "name", g_) for g_ in got)
+            if names_ != ("XL", "XU") and bad is None:
+                bad = (xlT, xuT, names_)
     if bad is None:
         L.ok(bw.fq, "the limits are re-assembled as (xl, xu) for all four tensor / non-tensor combinations (abstract evaluation of pack and unpack)")
     else:
